@@ -121,7 +121,9 @@ struct Shared {
 }
 
 struct Rec<S> {
-    inner: S,
+    /// never dropped: shuttle's random scheduler prints a "failing seed" banner when it is dropped
+    /// after a run that was stopped early, which would be misleading next to our own replay file
+    inner: std::mem::ManuallyDrop<S>,
     shared: Arc<Mutex<Shared>>,
 }
 
@@ -199,7 +201,7 @@ fn panic_message(e: Box<dyn std::any::Any + Send>) -> String {
 fn drive<S: Scheduler + 'static, P: Program>(sched: S, program: Arc<P>, fixed_iter: Option<u64>) -> Outcome {
     let shared = Arc::new(Mutex::new(Shared::default()));
     let acc = Arc::new(Mutex::new(Acc::default()));
-    let rec = Rec { inner: sched, shared: shared.clone() };
+    let rec = Rec { inner: std::mem::ManuallyDrop::new(sched), shared: shared.clone() };
     let runner = shuttle::Runner::new(rec, config());
     let (acc2, shared2) = (acc.clone(), shared.clone());
     let r = std::panic::catch_unwind(std::panic::AssertUnwindSafe(move || {
